@@ -277,7 +277,7 @@ func runC06(c *Ctx) {
 				why = "timer callback is not a function literal"
 				return
 			}
-			cl := mc.Fn.(*ssa.Function)
+			cl := w.closureBody(mc)
 			owner := fa.X // the allocation whose timer is set
 			for _, in2 := range cl.Blocks[0].Instrs {
 				call, isC := in2.(*ssa.Call)
